@@ -32,4 +32,30 @@ example : JCollDemo.cxj_obj_elements_none.1 = false := by decide +kernel   -- (J
 example : JCollDemo.cxj_cyclic_spine.1 = false := by decide +kernel        -- (J2)
 example : JCollDemo.okj_fsarray_null.1 = true := by decide +kernel
 example : JCollDemo.okj_inline_strlist_empty.1 = true := by decide +kernel
+
+/-! ### reserved names: instances with a feature declared as `self` / `type` (`ResDemo`, `JResDemo`) -/
+
+theorem jresDemo_applies_self_prim :
+    jcollAppliesB CollDemo.K (ResDemo.resTs "n" "self_") [CollDemo.cas] 0 (ResDemo.resHp "n" "self_") = true := by
+  decide +kernel
+
+theorem jresDemo_applies_type_ref :
+    jcollAppliesB CollDemo.K (ResDemo.resTs "next" "type_") [CollDemo.cas] 0 (ResDemo.resHp "next" "type_") = true := by
+  decide +kernel
+
+example : jcollAppliesB CollDemo.K (ResDemo.resTs "sa" "type_") [CollDemo.cas] 0 (ResDemo.resHp "sa" "type_") = true := by
+  decide +kernel
+
+/-- all hypotheses of `json_roundtrip_coll` hold on an instance with the reserved feature `type_` (a reference, written
+    under the key `@type`) -/
+theorem jresDemo_hyps :
+    ∃ (c : Cas) (doc : JDoc) (st : Traverse.St), [CollDemo.cas][0]? = some c ∧
+      saveJson CollDemo.K (ResDemo.resTs "next" "type_") [CollDemo.cas] 0 (ResDemo.resHp "next" "type_") .none = .ok (doc, st) ∧
+      RTWf c (ResDemo.resHp "next" "type_") ∧
+      (∀ q ∈ st.allFs, JCollFs CollDemo.K (ResDemo.resTs "next" "type_") c 0 st.heap q.2) ∧
+      (∀ nv ∈ c.views, ∀ e ∈ Index.all nv.2.idx, (xidOf (ResDemo.resHp "next" "type_") e.oid).isSome = true) ∧
+      (∀ q ∈ st.allFs, ∀ nv ∈ c.views, q.1 ≠ nv.2.sofa.xid) ∧
+      (∀ nv ∈ c.views, ∀ e ∈ Index.all nv.2.idx, Xmi.slot st.heap e.oid "sofa" ≠ some .none) ∧
+      MembersOk c st.heap :=
+  jcollAppliesB_hyps _ _ _ _ _ jresDemo_applies_type_ref
 end Cassis.Json
